@@ -589,6 +589,70 @@ Definition lexr_null (s : str) : option str := strip_prefix NULL_ s.
 Definition lex_null (s : str) := len_matched s (lexr_null s).
 
 (* ------------------------------------------------------------------------------------------------ *)
+(* TransactionFlag, PostingFlag, Account, Currency (recognisers; pinned patterns in harness/c12.py)   *)
+(* the flag class: * ! & # ? % P S T C U R M *)
+Definition is_flagchar (c : Z) : bool :=
+  (c =? 42) || (c =? 33) || (c =? 38) || (c =? 35) || (c =? 63) || (c =? 37) || (c =? 80) || (c =? 83)
+  || (c =? 84) || (c =? 67) || (c =? 85) || (c =? 82) || (c =? 77).
+Definition TXN_ : str := [116; 120; 110].
+(* TransactionFlag._parse_value: 'txn' is a spelling of '*'; _format_value is the identity *)
+Definition txflag_parse (raw : str) : res str := if str_eqb raw TXN_ then Ok [42] else Ok raw.
+Definition txflag_format (v : str) : str := v.
+Definition lexr_pflag (s : str) : option str :=
+  match s with c :: r => if is_flagchar c then Some r else None | [] => None end.
+(* TRANSACTION_FLAG compiles to  txn | flag class  (in this order) *)
+Definition lexr_txflag (s : str) : option str :=
+  match strip_prefix TXN_ s with Some r => Some r | None => lexr_pflag s end.
+Definition lex_pflag (s : str) := len_matched s (lexr_pflag s).
+Definition lex_txflag (s : str) := len_matched s (lexr_txflag s).
+
+(* ACCOUNT: type = (upper | non-ASCII) body*, then 1+ of ':' (upper | digit | non-ASCII) body*,
+   body = letter | digit | '-' | non-ASCII.  ':' is not a body character, so the greedy engine never
+   has to give characters back: a group is taken whenever ':' is followed by a start character. *)
+Definition is_nonascii (c : Z) : bool := 128 <=? c.
+Definition is_acct_body (c : Z) : bool := is_upper c || is_lower c || is_digit c || (c =? DASH) || is_nonascii c.
+Definition is_acct_type_start (c : Z) : bool := is_upper c || is_nonascii c.
+Definition is_acct_name_start (c : Z) : bool := is_upper c || is_digit c || is_nonascii c.
+Fixpoint acct_groups (fuel : nat) (s : str) : str * Z :=
+  match fuel with
+  | O => (s, 0)
+  | S f =>
+    match s with
+    | c :: d :: r => if (c =? COLON) && is_acct_name_start d
+                     then let (t, k) := acct_groups f (skip is_acct_body r) in (t, k + 1) else (s, 0)
+    | _ => (s, 0)
+    end
+  end.
+Definition lexr_account (s : str) : option str :=
+  match s with
+  | c :: r => if is_acct_type_start c
+              then let (t, k) := acct_groups (length r) (skip is_acct_body r) in
+                   if 1 <=? k then Some t else None
+              else None
+  | [] => None
+  end.
+Definition lex_account (s : str) := len_matched s (lexr_account s).
+
+(* CURRENCY:  '/' body* upper ( body* (upper|digit) )?   |   upper body* (upper|digit)
+   with body = upper | digit | ' . _ -  (the two alternatives start differently). The greedy body* takes
+   the whole run R of body characters and the engine gives back trailing characters until the next atom
+   matches: in both alternatives the match ends at the last upper-or-digit of R; the first alternative
+   additionally needs an upper-case letter in R. *)
+Definition is_cur_body (c : Z) : bool :=
+  is_upper c || is_digit c || (c =? 39) || (c =? DOT) || (c =? USCORE) || (c =? DASH).
+Definition is_cur_end (c : Z) : bool := is_upper c || is_digit c.
+Definition lexr_currency (s : str) : option str :=
+  match s with
+  | c :: r =>
+    let t := rstrip (fun x => negb (is_cur_end x)) (take is_cur_body r) in
+    if c =? SLASH then (if existsb is_upper t then Some (skipn (length t) r) else None)
+    else if is_upper c then (if is_nil t then None else Some (skipn (length t) r))
+    else None
+  | [] => None
+  end.
+Definition lex_currency (s : str) := len_matched s (lexr_currency s).
+
+(* ------------------------------------------------------------------------------------------------ *)
 (* Domains: the values that have a lexeme (boolean predicates)                                      *)
 Definition dom_string (v : str) : bool := true.                             (* every string *)
 Definition dom_inline (v : str) : bool := forallb not_crnl v && negb (starts_with1 SPACE v).
@@ -615,3 +679,22 @@ Definition dom_number_exact (v : decimal) : bool :=
 Definition dom_tag (v : str) : bool := negb (is_nil v) && forallb is_tagchar v.
 Definition dom_metakey (v : str) : bool :=
   match v with c :: r => is_lower c && negb (is_nil r) && forallb is_keychar r | [] => false end.
+
+Definition dom_flag (v : str) : bool := match v with [c] => is_flagchar c | _ => false end.
+(* an account: a type component and at least one name component *)
+Definition acct_type_ok (t : str) : bool :=
+  match t with c :: r => is_acct_type_start c && forallb is_acct_body r | [] => false end.
+Definition acct_name_ok (t : str) : bool :=
+  match t with c :: r => is_acct_name_start c && forallb is_acct_body r | [] => false end.
+Definition account_of (t : str) (names : list str) : str := t ++ concat (map (cons COLON) names).
+Fixpoint last_ok (q : Z -> bool) (r : str) : bool :=
+  match r with [] => false | [x] => q x | _ :: t => last_ok q t end.
+Definition dom_currency (v : str) : bool :=
+  match v with
+  | c :: r => forallb is_cur_body r && last_ok is_cur_end r
+              && (is_upper c || ((c =? SLASH) && existsb is_upper r))
+  | [] => false
+  end.
+(* Indent (INDENT = line start, blanks, lookahead for a character that is not blank, CR or LF):
+   an INDENT lexeme is never a whole text by itself - see the note in properties/C12.v *)
+Definition dom_indent (v : str) : bool := negb (is_nil v) && forallb is_ws v.
